@@ -144,3 +144,5 @@ def run_case(case, res):
     res.states.add(res.hash)
     res.sample = {"config": cfg, "steps_done": obs.steps, "rotations": obs.rotations, "lmax_raises": obs.lmax_raises,
                   "deepest_level": deepest, "final_lmax": list(c.lmax), "trace": obs.trace[:8]}
+
+RULE += (" " + 'A third of the histories is quiet (judged on the final state only, no monitor query in between); domains are also handed over as lists / tuples / python ints / integer arrays (integer boxes) and with edge lengths differing by up to 15 orders of magnitude; integer-valued functions; error values at magnitudes 1e-12..1e9; a leading-dimension profile; evaluation lists with repeated points.')
